@@ -65,8 +65,8 @@ func init() {
 	control(&Control{ID: "closeonce-return-close", Rule: "CLOSE-ONCE", File: "larking/grpc.go",
 		Old: "\tif _, err := w.Write(b); err != nil {\n\t\treturn err\n\t}\n\treturn nil\n}", New: "\tif _, err := w.Write(b); err != nil {\n\t\treturn err\n\t}\n\treturn w.Close()\n}", Expect: "compress/writer-closed-once", Why: "writer closed explicitly and again by the defer"})
 	control(&Control{ID: "delrule-prune-always", Rule: "DELRULE-GUARD", File: "larking/rules.go",
-		Old:    "\t\tif ok := s.delRule(name); ok {\n\t\t\tif !s.alive() {\n\t\t\t\tdelete(p.segments, k)\n\t\t\t}\n\t\t\treturn ok\n\t\t}",
-		New:    "\t\tok := s.delRule(name)\n\t\tif !s.alive() {\n\t\t\tdelete(p.segments, k)\n\t\t}\n\t\tif ok {\n\t\t\treturn ok\n\t\t}",
+		Old:    "\t\tif ok := s.delRule(name); ok {\n\t\t\tdeleted = true\n\t\t\tif !s.alive() {\n\t\t\t\tdelete(p.segments, k)\n\t\t\t}\n\t\t}",
+		New:    "\t\tif ok := s.delRule(name); ok {\n\t\t\tdeleted = true\n\t\t}\n\t\tif !s.alive() {\n\t\t\tdelete(p.segments, k)\n\t\t}",
 		Expect: "prune:path.segments", Why: "dead-looking siblings pruned while walking past them"})
 	control(&Control{ID: "binpadding-trimsuffix", Rule: "BIN-PADDING", File: "larking/grpc.go",
 		Old: "b, err = base64.StdEncoding.DecodeString(v)", New: "b, err = base64.RawStdEncoding.DecodeString(strings.TrimSuffix(v, \"=\"))", Expect: "padded-and-unpadded", Why: "only one '=' of the padding is stripped"})
